@@ -256,6 +256,7 @@ fn syn_campaign(report: &mut Report, n: usize) {
     let scratch = Scratch::new("c14");
     let mut cfg = CaseCfg::default();
     cfg.gen.deprecation_percent = 30;
+    cfg.gen.recursion_percent = 30;
     let mut stats = GenStats::default();
     let tapes = sample_tapes(report.seed, 0xC14E, n, 3072);
     let mut jobs = Vec::new();
